@@ -53,7 +53,7 @@ def U(universe, oracle, bounds, ref, level="exploration", tech=None):
     return (level, tech, universe + " Oracle: " + oracle, bounds, ref)
 
 CHECKS.update({
- "C29": U("(a) 398 (quick) / 2,328 (thorough) generated programs whose token stream and statement boundaries are known from the generator's structured printer: EVERY single layout change (one of 6 block comments in every gap between two tokens, one of 3 line comments at every line end, every statement separator as `;` (`,` between match arms), a blank line at every statement boundary; all pairs of changes on short programs in thorough); (b) the 12 (quick) / 60 (thorough) shortest repository corpus programs with a block comment before every token and a line comment at every line end;",
+ "C29": U("(a) 398 (quick) / 2,328 (thorough) generated programs whose token stream and statement boundaries are known from the generator's structured printer: EVERY single layout change (one of 12 block comments in every gap between two tokens (texts with stars, slashes, quotes, backslashes), one of 8 line comments at every line end (incl. trailing backslashes, `/*`, quotes), every statement separator as `;` (`,` between match arms), a blank line at every statement boundary; all pairs of changes on short programs in thorough); (b) the 12 (quick) / 60 (thorough) shortest repository corpus programs with a block comment before every token and a line comment at every line end;",
           "the compile verdict and the run observation (emits, output, end kind) equal those of the unchanged program.",
           "Deviation 1 (pairs only on short programs); comments containing a newline, and `,`/newline flips of list separators, are not generated; error line numbers are not compared.", "DESIGN.md §3 C29"),
  "C01": U("the shared program universe U-prog (typed generator: expression trees with tracing calls, statement lists with loops/break/continue/return, functions/recursion/lambdas, data with aliasing and void components, matches incl. arms that shadow an enclosing name, depth-2 string-operation expressions over prefix-related operands; 24 k programs quick / 270 k thorough) plus the strata S-empty (operations on empty/singleton arrays), S-task (tasks capturing every kind of value), S-jump (break/continue/return/? in every operand position) and S-voidvariant, each program under EVERY uniform budget in {1,2,3,7,64,MAX};",
@@ -63,7 +63,7 @@ CHECKS.update({
           "a deliberately naive reference interpreter of the documented semantics (left-to-right evaluation, short-circuit and/or, block scoping and shadowing, reference semantics of arrays/structs, capture by value, i128 arithmetic with range check, documented rendering) predicts printed output, host emits and the runtime-error kind; every model trace is replayed on the real compiler+VM.",
           "Where the manual is silent the model answers Unspecified and only 'no fault' is asserted (negative exponents, empty-array rendering, some array methods, tasks).", "DESIGN.md §3 C02", "model_checking",
           "exhaustive enumeration of a bounded typed program universe; every reference-model trace validated against the real compiler and VM"),
- "C04": U("the deviation <= 1 neighbourhood of a 217-program corpus (repository test programs, core modules, examples, non-ASCII programs): every prefix, single-token deletion, replacement by each of 44 (79) tokens, single-character insertion from a 9-character menu, adjacent-token swap; semantic error mutations; all token strings of length <= 2 (quick) / 3 (thorough); deviation 2 on the 3 shortest files (thorough); quick = 34 shortest files;",
+ "C04": U("the deviation <= 1 neighbourhood of a 217-program corpus (repository test programs, core modules, examples, non-ASCII programs): every prefix, single-token deletion, replacement by each of 44 (79) tokens, single-character insertion from a 9-character menu, adjacent-token swap; semantic error mutations; all token strings of length <= 2 (quick) / 3 (thorough); deviation 2 on the 3 shortest files (thorough); quick = 34 shortest files; plus four structured product families (parameter lists with repeated names and defaults x calls; implementation target x interface x use; generic payloads instantiated to void x arm lists; 27 bracketing constructs nested up to 64 / 128 deep);",
           "check() and compile_bytecode() return a program or rendered diagnostics: no panic, no abort, no run-away (CPU watchdog 20 s per text).",
           "A neighbourhood of real programs, not all UTF-8 strings; texts that make the type checker build a cyclic type (no occurs check) are open known findings listed by input.", "DESIGN.md §3 C04"),
  "C05": U("(a) every program of U-prog compiled with and without the peephole optimizer (hook); (b) the operand grid: 57 boundary ints and 38 boundary floats x 12 operators x 6 operand forms (literal/variable on each side, compound assignment), optimizer on and off;",
@@ -84,7 +84,7 @@ CHECKS.update({
           "Rust byte-wise concatenation and lexicographic order; no reclaimed object reachable or touched in any state.",
           "Structured set instead of random strings; the full mutator x collector interleaving search for string temporaries is part of C06.", "DESIGN.md §3 C17", "model_checking",
           "exhaustive pairs x operand forms under enumerated budget schedules (uniform and deviation-bounded) and enumerated collection windows driven through the schedulable-collector hooks"),
- "C03": U("all programs `context^k x payload` (k <= 2 quick / 3 thorough; contexts fn, member fn, lambda, task, while, for, match arm, if, operand block; 27 payload kinds incl. break/continue/return/?/!, assignments to outer variables/fields/elements/user-Index, tasks, lambdas, scrutinee-only uses, user Num operators), each compiled standalone;",
+ "C03": U("all programs `context^k x payload` (k <= 2 quick / 3 thorough; contexts fn, member fn, lambda, task, while, for, match arm, if, operand block, while-condition block, for-iterable block, if-condition block, match-scrutinee block; 27 payload kinds incl. break/continue/return/?/!, assignments to outer variables/fields/elements/user-Index, tasks, lambdas, scrutinee-only uses, user Num operators), each compiled standalone;",
           "check() gives diagnostics, or check() is Ok and compile_bytecode() is Ok and the program runs under budget 1 without a VM fault; a sanity guard requires the no-op payload to be accepted in every context.",
           "Bounded nesting depth; four constructs the checker lets through but the translator does not implement are open known findings keyed by payload kind + failure class (known_findings.json).", "DESIGN.md §3 C03"),
  "C12": U("all arm lists up to length 2-3 (quick) / 2-4 (thorough) over 5-58 patterns for each of 17 scrutinee types (bool, void, int/float/string literals, tuples, structs incl. void field and generic, enums with positional/named/void payloads, option, nested option, result), plus cover lists, matches nested in arm bodies / scrutinees / task blocks;",
@@ -112,10 +112,10 @@ CHECKS.update({
  "C21": U("all import layouts of three files (7 x 7 import forms x main's own declaration) with positive/negative/clash programs, plus all nests of <= 2 (quick) / 3 (thorough) scopes from block/if/while/for/arm/lambda with every let-before/after pattern, plus the sibling-scope family (a name bound in one arm / branch / block / loop / lambda must not be visible in a later sibling);",
           "a model resolver predicts the chosen declaration (observed by its tag), an unresolved-identifier diagnostic, or a clash diagnostic; an environment-stack model predicts every read in nested scopes.",
           "Bounded file/name counts; importing a name the file lacks, same-scope redeclaration and unaliased fully qualified names are unspecified.", "DESIGN.md §3 C21"),
- "C22": U("23 generic functions x all ordered pairs of 10 (quick) / 21 (thorough) instantiation types satisfying their constraints, plus direct operator / for / index uses on user types;",
+ "C22": U("33 generic functions (incl. lambdas and tasks that capture values of the generic type, and interface methods passed as function values) x all ordered pairs of 10 (quick) / 21 (thorough) instantiation types satisfying their constraints, plus direct operator / for / index uses on user types and interfaces implemented with their methods written in every other order;",
           "differential: each generic call must produce the same trace (tags emitted by the user implementations + rendered results) as its hand-monomorphised copy, and no tag of a foreign type may appear.",
           "Bounded type list; generics over Iterable cannot be written on this tree; `c[i] += v` through a user Index is an open known finding.", "DESIGN.md §3 C22"),
- "C23": U("2 carriers x (?, !) x success/failure x 2 function arities x 30 syntactic positions (statement, let, operands at pending depth 1-4, call arguments, array/tuple/struct elements, index, conditions, scrutinee, loop bodies, assignments, lambda body) with a trace emit after every statement;",
+ "C23": U("2 carriers x (?, !) x success/failure x 4 parameter lists of the enclosing function (1, 3, with a void parameter, with a generic parameter instantiated to void) x 30 syntactic positions (statement, let, operands at pending depth 1-4, call arguments, array/tuple/struct elements, index, conditions, scrutinee, loop bodies, assignments, lambda body) with a trace emit after every statement;",
           "`e?` yields the payload or returns none/err at once without running the rest; `e!` yields the payload or stops with a panic error.", "Bounded positions.", "DESIGN.md §3 C23"),
  "C24": U("all unordered pairs and (on subsets) ordered triples of values of bool, void, 28 small tuple types, arrays of length <= 2, a 57-value int grid, 17 strings, 20 floats (incl. NaNs, +-0, +-inf), in up to 5 operand forms;",
           "the truth tables emitted by the real operators must satisfy reflexivity/symmetry/transitivity of ==, != = not ==, trichotomy, <= / >= consistency, transitivity of <, and equal => equal hash (per interface actually implemented).",
@@ -130,7 +130,7 @@ CHECKS.update({
           "Rust HashMap/HashSet on every step; get / m[k] of a missing key stops with a panic error.",
           "States merged on (structural event sequence, contents); depth 9 on >= 5-key alphabets not reached.", "DESIGN.md §3 C27", "model_checking",
           "explicit-state BFS over operation histories of core/map and core/set (read from the working tree), every transition executed on the real VM against a HashMap/HashSet model"),
- "C28": U("all values of nested built-in types of depth <= 3 (int/bool/void/string/array/tuple 2-4/option/result, containers of size 0-2) rendered through `..` on both sides, .str(), ToString.str, print and println;",
+ "C28": U("all values of nested built-in types of depth <= 3 (int/bool/void/string incl. non-ASCII text/array/tuple 2-4/option/result, containers of size 0-2) rendered through `..` on both sides, .str(), ToString.str, print and println;",
           "model printer from the property statement (decimal ints, true/false, nil, verbatim strings, `[ a, b ]`, `(a, b)`, some(x)/none, ok(x)/err(e)).",
           "Floats not asserted; the empty array's spelling is only required to be consistent.", "DESIGN.md §3 C28"),
  "C30": U("integer literal spellings (boundary grid, every `_` placement, negated, leading zeros, 26 out-of-range spellings), float spellings (all I.F with <= 3/4 digits, round-half families of 17-20 digits, 300-400 digit strings), all strings of length <= 3 (quick) / 4 (thorough) over a 13-character menu in single, double and triple quotes, multi-line layouts (every 1-3 content-line layout slice: indent x line menu x residue x closer);",
@@ -139,7 +139,7 @@ CHECKS.update({
  "C31": U("all typed expression trees of depth <= 3 over the 15 binary and 2 prefix operators with variable / literal / negative-literal leaves, printed with minimal parentheses for the documented table and round-tripped through a reference Pratt parser;",
           "value of the tree under a model evaluator using the documented precedence table and left associativity.",
           "The stratum 'negative literal directly followed by % or ^' is an open known finding; a prefix minus on a non-literal operand groups by the documented table also when it is the right operand of a tighter operator (a * -b / c = a * (-(b / c))).", "DESIGN.md §3 C31"),
- "C32": U("call chains of depth <= 2 (quick) / 3 (thorough) over named functions, methods and lambdas spread over three files, five failing operations placed at every statement position, with 0/1/5/40 non-ASCII characters (and 4-byte characters) above the site; plus the statement-layout family (the failing operation on its own line below `let v =` / `v =`, after a comment line, or inside a block initialiser);",
+ "C32": U("call chains of depth <= 2 (quick) / 3 (thorough) over named functions, methods and lambdas spread over three files, five failing operations placed at every statement position, calls with and without arguments, with 0/1/5/40 non-ASCII characters (and 4-byte characters) above the site; plus the statement-layout family (the failing operation on its own line below `let v =` / `v =`, after a comment line, or inside a block initialiser);",
           "error kind, then file:line and function of the failing statement, then the call site of every active call, innermost first (the generator knows every line it emitted).",
           "For `!` on none one leading prelude frame is allowed.", "DESIGN.md §3 C32"),
  "C35": U("all nests of <= 2 (quick) / 3 (thorough) scopes (block, fn, lambda, match arm, for) x 1-2 names x every shadowing pattern, each binding initialised with a distinct constant and each use emitted; definition_at queried at every byte of every use; 82 hover programs;",
